@@ -1162,6 +1162,10 @@ class Engine:
             c, _ = f.cls.lookup('__call__')
             if c is not None:
                 return self.call(BoundMethod(c, f), args, kwargs)
+            if not f.cls.builtin or f.cls.issubclass(EXC['BaseException']):
+                self.throw('TypeError', "'%s' object is not callable" % f.cls.name)
+        if isinstance(f, self.models.Partial):
+            return self.call(f.f, list(f.args) + list(args), dict(f.kwargs, **kwargs))
         if isinstance(f, Extern):
             raise Unsupported('call of unmodelled external %s' % f.name)
         if callable(f) and getattr(f, '_pyvc_host', False):
@@ -1304,10 +1308,23 @@ class Engine:
         if isinstance(v, aio.Awaitable):
             if v.kind == 'ready':
                 return v.result
+            if v.kind == 'event.wait' and v.obj.attrs.get('flag') is True:
+                return True                              # Event.wait() on a set event does not suspend
             hook = getattr(self, 'suspend_hook', None)
             if hook is None:
                 raise Unsupported('await %s without suspend hook' % v.kind)
-            return hook(self, (v.kind, v.obj))
+            r = hook(self, (v.kind, v.obj))
+            if v.kind == 'event.wait':
+                if v.obj.attrs.get('flag') is not True:
+                    # the environment of this history (the hook) ran and nobody set the event: the coroutine is parked
+                    # here for ever.  As for futures (aio.await_future): a failed obligation unless the contract allows it.
+                    if not getattr(self, 'allow_hang', False):
+                        self.results.append(ObligationResult('terminates[waits for an event that is never set on this history]',
+                                                             'refuted', ';'.join(self.path.sig), 0.0,
+                                                             reason='Event.wait(): the event stays clear for ever on this path'))
+                    raise PathEnd('waiting for an event that is never set')
+                return True
+            return r
         if self.await_hook is not None:
             return self.await_hook(self, v)
         raise Unsupported('await on %r' % (v,))
